@@ -261,10 +261,20 @@ class Stacker(Transformer):
         feature_name = self.feature_name
         has_only_one_sample_dim = len(self.dims_mapping[sample_name]) == 1
 
-        if has_only_one_sample_dim:
-            X = X.rename({sample_name: self.dims_mapping[sample_name][0]})
+        # Rename only if needed: the sample dimension may already carry its original name
+        if has_only_one_sample_dim and sample_name in X.dims:
+            if self.dims_mapping[sample_name][0] != sample_name:
+                X = X.rename({sample_name: self.dims_mapping[sample_name][0]})
 
-        ds: DataSet = X.to_unstacked_dataset(feature_name, "variable").unstack()
+        ds: DataSet = X.to_unstacked_dataset(feature_name, "variable")
+        # Unstack only what the stacker stacked: a MultiIndex of the user's own sample
+        # dimension (as carried by scores passed to inverse_transform) must stay intact
+        stacked_dims = [feature_name] if has_only_one_sample_dim else [feature_name, sample_name]
+        stacked_dims = [
+            d for d in stacked_dims
+            if d in ds.dims and isinstance(ds.indexes.get(d), pd.MultiIndex)
+        ]
+        ds = ds.unstack(stacked_dims)
         ds = self._reorder_dims(ds)
         return ds
 
